@@ -492,6 +492,7 @@ def _prepare(resource, schema, f, smt, nodes, cores, gpus, backup, bulk_pos=0):
                 lc._prepare_pilot(resource, rcfg, other, expand, 'verif.tgz')
             lc._prepare_pilot(resource, rcfg, pilot, expand, 'verif.tgz')
             out['pilot'] = pilot
+            out['rcfg']  = rcfg
             out['stage'] = 'agent_cfg_file'
             out['agent_file'], _ = L.read_staged_agent_cfg(pilot)
         except Exception as e:      # noqa
@@ -641,6 +642,41 @@ def run_size(case):
                 res.fail('%s_gpus_per_node:%s' % (where, mode),
                          'agent gpus_per_node=%r, %d blocked; job sized with %d per node'
                          % (a_gpn, f['nbg'], g))
+    # ---- the batch job as the PSI/J launcher submits it requests the same figures
+    try:
+        rcfg = out.get('rcfg')
+        lp   = _psij_launcher()
+        sch  = lp._get_schema(rcfg) if rcfg is not None else None
+        if sch and lp.can_launch(rcfg, [pilot]):
+            jobs = []
+
+            class _Jex(object):
+                def submit(self, job):
+                    jobs.append(job)
+            import threading as _mt
+            real_jex = lp._jex.get(sch)
+            lp._jex[sch] = _Jex()
+            lp._jobs, lp._pilots, lp._lock = dict(), dict(), _mt.RLock()
+            try:
+                lp.launch_pilots(rcfg, [pilot])
+            finally:
+                lp._jex[sch] = real_jex
+            r = jobs[0].spec.resources if jobs else None
+            if r is None:
+                res.fail('psij_job_not_submitted:%s' % mode, resource)
+            else:
+                res.label('psij_job_submitted')
+                if r.computed_process_count != jd.get('total_cpu_count'):
+                    res.fail('psij_job_cores_vs_agent:%s' % mode,
+                             'the submitted job asks for %r processes (nodes %r x per node %r), the agent '
+                             'is told %r cores' % (r.computed_process_count, r.node_count,
+                                                   r.processes_per_node, jd.get('total_cpu_count')))
+                if jd.get('node_count') and r.computed_node_count != jd.get('node_count'):
+                    res.fail('psij_job_nodes_vs_agent:%s' % mode,
+                             'the submitted job asks for %r nodes, sized %r'
+                             % (r.computed_node_count, jd.get('node_count')))
+    except Exception as e:      # noqa
+        res.fail(exc_sig('psij_launch_raised:%s' % mode, e), repr(e))
     return res
 
 
